@@ -13,7 +13,10 @@ The front ends (second half of the file) are modelled from the caller's argument
 `optimalPartition`: the call protocol of the user's cost function (`CostFn`: three / four parameters, default value, not
 callable; `glob_param is None` selects the three-argument call, EVERY other value is passed), the loops that fill the
 matrix (in place, loop form, with `findStopsGlobal`'s `break`), `C + C.T`, degenerate track sizes and the exceptions.
-Geometry (`minCircle`, distances, timestamps, the built-in cost functions of `simplify`) enters as parameters.
+`findStopsGlobal` is modelled from ITS arguments (`findStopsGlobalPy`, last section): the track it works on (`downsampling > 1`:
+the resampled copy), the planimetric `distance2DTo` and the elapsed time read from the observations `(x, y, z, t)`, the three
+tests, the final filter and the identifiers of the stops. `minCircle`, the temporal resampling `track ** n`, the geometry of
+`findStopsGlobalForRTK` and the built-in cost functions of `simplify` enter as parameters.
 
 `better a b` is the strict test of the selected direction (`a < b` to minimise, `a > b` to maximise).
 Core Lean only; polymorphic in the scalar (`Rat`/`Int` and `Float` in the driver, an ordered monoid in the proofs). -/
@@ -305,4 +308,89 @@ def pairs : List Nat → List (Nat × Nat)
 `keep a e` is that filter on `track.extract(a, e)`. -/
 def stopsReported (zero : α) (sq : Nat → α) (p : StopPred) (keep : Nat → Nat → Bool) (size : Nat) : List (Nat × Nat) :=
   ((pairs (stopsSegmentation zero sq p size)).filter (fun ab => keep ab.1 (ab.2 - 1))).map (fun ab => (ab.1, ab.2 - 1))
+/-! ### `findStopsGlobal` from the caller's arguments down to the stops it reports
+
+`findStopsGlobal(track, diameter, duration, downsampling, verbose)`: the choice of the track the criterion is evaluated on
+(`downsampling > 1`: the resampled copy), the three tests of the row loops read from the observations — the PLANIMETRIC
+distance `distance2DTo` (the altitude is never read), the elapsed time, the size of `minCircle`'s circle —, the delegation to
+`optimalPartition(MAXIMIZE)`, the final filter and the identifiers written on the stops (`segmentation[i] * downsampling`).
+Lengths are compared through their squares (the test `sqrt(s) > d` is `d < 0 ∨ d² < s` for exact non-negative `s`).
+`minCircle` (Welzl's randomised algorithm) and the temporal resampling `track ** n` are parameters. -/
+
+/-- an observation as stop detection reads it: ENU position `(x, y, z)` and absolute time `t` in seconds -/
+structure Fix (α : Type) where
+  x : α
+  y : α
+  z : α
+  t : α
+
+section track
+variable [Sub α] [Mul α]
+
+/-- square of `p.distance2DTo(q)` = `(q − p).norm2D()²`: planimetric, the altitude `z` is not read -/
+def dist2D2 (p q : Fix α) : α := (q.x - p.x) * (q.x - p.x) + (q.y - p.y) * (q.y - p.y)
+
+/-- the three tests of `findStopsGlobal` read from the track `tr` (index → observation):
+`track[i].distance2DTo(track[e]) > diameter` (break), `track[e].timestamp - track[i].timestamp < duration` (reward 0),
+`2 * cercle.radius <= diameter` (rewarded), with lengths compared through their squares: `circ2 i e` is the SQUARE of
+`2 * minCircle(track.extract(i, e)).radius` (`none` = `None`). A negative `diameter` is exceeded by every distance and by
+every circle. -/
+def stopPredTrack (zero : α) (tr : Nat → Fix α) (circ2 : Nat → Nat → Option α) (diameter duration : α) : StopPred :=
+  if diameter < zero then
+    { far := fun _ _ => true
+      short := fun i e => decide ((tr e).t - (tr i).t < duration)
+      small := fun i e => (circ2 i e).map (fun _ => false) }
+  else
+    stopPredGlobal (fun i e => dist2D2 (tr i) (tr e)) (fun i e => (tr e).t - (tr i).t) circ2 (diameter * diameter) duration
+
+/-- the final filter on `portion = track.extract(a, e)`: `C = minCircle(portion)`; the segment is reported unless `C` is
+`None`, `C.radius > diameter / 2` or `portion.duration() < duration`. `circA a e` is the squared `2 * radius` of THAT call
+(`minCircle` is randomised: the second call on the same fixes may return `None` where the first did not). -/
+def stopKeepTrack (zero : α) (tr : Nat → Fix α) (circA : Nat → Nat → Option α) (diameter duration : α) (a e : Nat) : Bool :=
+  match circA a e with
+  | none => false
+  | some c => !(decide (diameter < zero) || decide (diameter * diameter < c)) && !decide ((tr e).t - (tr a).t < duration)
+
+/-- run-time certificate for the circles handed to the model as `minCircle`'s answers (`circ2 i e` = squared diameter, centre
+`(cx i e, cy i e)`): every observation `p_i … p_e` of every segment `i ≤ e < size` lies in the disc, i.e.
+`4 · |p_k − centre|² ≤ circ2 i e` (planimetric). `Props/C12.lean` (`enclosedB_sound`) turns `true` into the hypothesis of
+`stops_criterion`. -/
+def enclosedB (four : α) (tr : Nat → Fix α) (circ2 : Nat → Nat → Option α) (cx cy : Nat → Nat → α) (size : Nat) : Bool :=
+  (List.range size).all fun i => (List.range size).all fun e =>
+    if i ≤ e then
+      match circ2 i e with
+      | none => true
+      | some c => (List.range (e + 1 - i)).all fun d =>
+          !decide (c < four * (((tr (i + d)).x - cx i e) * ((tr (i + d)).x - cx i e) + ((tr (i + d)).y - cy i e) * ((tr (i + d)).y - cy i e)))
+    else true
+
+/-- `if downsampling > 1: track = track.copy(); track **= track.size() / downsampling` (`**=` builds the temporal resampling
+on that number of points: `resampled`, a parameter); every other value of `downsampling` leaves the track as it is -/
+def stopsTrack (one downsampling : α) (track resampled : List (Fix α)) : List (Fix α) :=
+  if one < downsampling then resampled else track
+
+/-- `track[i]` -/
+def getFix (zero : α) (l : List (Fix α)) : Nat → Fix α :=
+  fun i => l.getD i ⟨zero, zero, zero, zero⟩
+
+/-- what `findStopsGlobal` reads of an observation: planimetric position and time -/
+def Fix.flat (p : Fix α) : α × α × α := (p.x, p.y, p.t)
+
+/-- `findStopsGlobal(track, diameter, duration, downsampling)`: the stops reported as `(id_ini, id_end, nb_points)` =
+`(a * downsampling, (b − 1) * downsampling, b − a)` for the segments `[a, b)` of the maximising segmentation that pass the
+final filter. An empty track raises `ValueError` (`np.zeros((-1, -1))` in `optimalPartition`), a track of one observation
+`IndexError` (`backward` indexes an empty table), of two observations `IndexError` too (the segmentation is `[0, 0]` and
+`extract(0, -1)` is an empty track whose duration is asked for). -/
+def findStopsGlobalPy (zero one : α) (sq ofNat : Nat → α) (track resampled : List (Fix α))
+    (circ2 circA : Nat → Nat → Option α) (diameter duration downsampling : α) : Except Err (List (α × α × Nat)) :=
+  let tr := stopsTrack one downsampling track resampled
+  let size := tr.length
+  if size = 0 then .error .value
+  else if size ≤ 2 then .error .index
+  else
+    let f := getFix zero tr
+    let p := stopPredTrack zero f circ2 diameter duration
+    .ok ((stopsReported zero sq p (stopKeepTrack zero f circA diameter duration) size).map
+      (fun ae => (ofNat ae.1 * downsampling, ofNat ae.2 * downsampling, ae.2 + 1 - ae.1)))
+end track
 end TV.Partition
